@@ -1,8 +1,9 @@
-"""C16 (engine E1)."""
+"""C16 - a for loop equals its unrolling (E1 vs the generator's unrolling + CrossHair on ForStmt.get_iteration_values)."""
 import sys
 sys.path.insert(0, "/verif")
 from vf.main import run_prop
 from vf.report import main_wrapper
+from vf.crosshair_run import part
 
 if __name__ == "__main__":
-    main_wrapper(lambda: run_prop("C16"))
+    main_wrapper(lambda: run_prop("C16", extra_parts=[part(["c16_iteration_values_explicit_step", "c16_iteration_values_default_step"], ["c16_iteration_values_twin_reachability"])]))
